@@ -2,6 +2,7 @@
 from __future__ import annotations
 
 import builtins
+import gc
 import io
 import json
 import os
@@ -17,7 +18,7 @@ RULE = (
     "FULL ENUMERATION: files of 1-8 elements x every fault position k (and no fault) x {read, write} x file "
     "families {register, block, section} x {fresh path, path that already holds a longer earlier output, caller buffer (in-memory and a real file object opened by the caller) / content} x storage {text, binary} x exception "
     "types {ValueError, KeyError, TypeError, custom Exception subclasses incl. one derived from StopIteration, one from TypeError and one with a "
-    "non-trivial constructor}, plus nineteen further builtin classes (NotImplementedError and a subclass, OSError, EOFError, AttributeError, ...) on a thinner grid of positions; on writes also elements that keep what they hold in a slot of their own (the inherited data slot stays None). The k-th element's read/write raises a specific "
+    "non-trivial constructor}, plus nineteen further builtin classes (NotImplementedError and a subclass, OSError, EOFError, AttributeError, ...) on a thinner grid of positions; on writes also elements that keep what they hold in a slot of their own (the inherited data slot stays None); on writes to a caller buffer also a buffer of the OTHER kind than the file's storage (a byte buffer / a file opened 'wb' under text storage, a text buffer / a file opened 'w' under binary storage), where the first element whose own write call is refused by the buffer is the failing element (position and exception recorded inside the harness element), with and without an injected fault; every caller buffer is looked at after the call has returned, the caught exception has been let go and a garbage collection has run, as a caller that goes on using its buffer finds it. The k-th element's read/write raises a specific "
     "exception instance. Observed with a harness-side wrapper around builtins.open (and around the StringIO/BytesIO "
     "the reading adapter creates): the exception object reaching the caller (identity), the closed flag of every "
     "handle the framework opened, the caller buffer's closed flag / tell() / contents, the file contents on disk "
@@ -108,7 +109,7 @@ def make_field_fault_family(k, exc_obj, direction):
     return E, F, Data, Dflt
 
 
-def make_family(fam, binary, k, exc_obj, direction, iter_read=False, own_slot=False):
+def make_family(fam, binary, k, exc_obj, direction, iter_read=False, own_slot=False, first_raise=None):
     """element classes whose read/write handles one chunk, the k-th call raising exc_obj;
     with `iter_read` the failing element first consumes a line by ITERATING the file
     (`next(file)`), which is how a read-to-the-end element loops over its lines"""
@@ -119,8 +120,19 @@ def make_family(fam, binary, k, exc_obj, direction, iter_read=False, own_slot=Fa
         # `data` slot None: it is written (and may fail) like any other element
         i = self._own if own_slot else self.data
         if i == k and direction == "write":
+            if first_raise is not None and not first_raise:
+                first_raise.append((i, exc_obj))
             raise exc_obj
-        file.write(chunk_of(i, binary))
+        if first_raise is None:
+            file.write(chunk_of(i, binary))
+        else:
+            # the element notes the first exception its own write call meets (a destination that refuses the chunk)
+            try:
+                file.write(chunk_of(i, binary))
+            except BaseException as e:  # noqa
+                if not first_raise:
+                    first_raise.append((i, e))
+                raise
         return True
 
     def do_read(self, file, *a, **kw):
@@ -203,10 +215,36 @@ class Recorder:
         self._rr.StringIO, self._rr.BytesIO = self._sio, self._bio
 
 
+def _classify_and_release(raised, exc_obj, k, out, collect=False):
+    """which exception reached the caller; then the caller lets it go (the traceback, and with it the
+    frames of the call, are dropped) and a garbage collection runs"""
+    if raised is None:
+        out["raised_at"] = None
+    elif raised is exc_obj:
+        out["raised_at"] = k
+    else:
+        out["raised_at"] = 9999
+        out["other_exception"] = f"{type(raised).__name__}: {raised}"
+    seen = set()
+    for e in (raised, exc_obj):
+        while e is not None and id(e) not in seen:
+            seen.add(id(e))
+            e.__traceback__ = None
+            e = e.__context__
+    del raised, e
+    if collect:
+        gc.collect(1)
+    return None
+
+
 def run_impl(case):
     fam, binary, n, k, direction, where = case["family"], case["binary"], case["n"], case["k"], case["direction"], case["where"]
     exc_obj = {**EXC, **MORE_EXC}[case["exc"]]("injected fault") if k is not None else None
     d = tempfile.mkdtemp(prefix="cfi-c17-")
+    # a caller buffer of the other kind than the storage (write direction only): the failing element is the
+    # first one whose write raises, be it the injected fault or the buffer refusing the chunk
+    other_kind = bool(case.get("other_kind")) and direction == "write" and where in ("buffer", "callerfile") and not case.get("field_fault")
+    first_raise = [] if other_kind else None
     try:
         # arguments the caller forwards through File.read / File.write down to every element
         # (block and section families; the register family's positional argument is its peek window)
@@ -217,14 +255,18 @@ def run_impl(case):
         if ff:
             E, F, Data, Dflt = make_field_fault_family(k, exc_obj, direction)
         else:
-            E, F, Data, Dflt = make_family(fam, binary, k, exc_obj, direction, case.get("iter_read", False), bool(case.get("own_slot")))
+            E, F, Data, Dflt = make_family(fam, binary, k, exc_obj, direction, case.get("iter_read", False), bool(case.get("own_slot")), first_raise)
         expected_prefix = (b"" if binary else "").join(chunk_of(i, binary, ff) for i in range(n if k is None else k))
         raised = None
         out = {"buffer_closed": False, "buffer_at_end": True, "output_is_prefix": True}
         if direction == "write":
-            data = Data(Dflt(data=b"" if (binary and fam != "register") else ""))
+            # (buffer of the other kind: the container starts with the first harness element, so that every
+            # element written is one that records what its write call meets)
+            data = None if other_kind else Data(Dflt(data=b"" if (binary and fam != "register") else ""))
             for i in range(n):
-                if case.get("own_slot"):
+                if data is None:
+                    data = Data(E(data=i))
+                elif case.get("own_slot"):
                     e = E()
                     e._own = i
                     data.append(e)
@@ -237,16 +279,26 @@ def run_impl(case):
                 full = (b"" if binary else "").join(chunk_of(i, binary, ff) for i in range(n + 3))
                 with open(dest_path, "wb") as fh:
                     fh.write((full if binary else full.encode("utf-8")) + b"# stale tail of an earlier save\n")
+            buf_binary = (not binary) if other_kind else binary
             if where == "callerfile":
                 # a real file object opened (and owned) by the caller, before the recorder starts
-                buf = open(os.path.join(d, "caller.dat"), "wb" if binary else "w", **({} if binary else {"encoding": "utf-8", "newline": ""}))
+                buf = open(os.path.join(d, "caller.dat"), "wb" if buf_binary else "w", **({} if buf_binary else {"encoding": "utf-8", "newline": ""}))
             else:
-                buf = io.BytesIO() if binary else io.StringIO()
+                buf = io.BytesIO() if buf_binary else io.StringIO()
             with Recorder() as rec:
                 try:
                     f.write(dest_path if where in ("path", "existingpath") else buf, *fwd_a, **fwd_k)
                 except BaseException as e:  # noqa
                     raised = e
+            if other_kind:
+                # the failing position is the one the elements themselves recorded
+                k = first_raise[0][0] if first_raise else None
+                exc_obj = first_raise[0][1] if first_raise else None
+                out["element_raised_at"] = k
+                expected_prefix = (b"" if binary else "").join(chunk_of(i, binary, ff) for i in range(n if k is None else k))
+                # what a buffer of the other kind holds / counts is the encoded (decoded) form of the same output
+                expected_prefix = expected_prefix.decode("utf-8") if binary else expected_prefix.encode("utf-8")
+            raised = _classify_and_release(raised, exc_obj, k, out, collect=where in ("buffer", "callerfile"))
             if where in ("path", "existingpath"):
                 with open(dest_path, "rb") as fh:
                     disk = fh.read()
@@ -259,7 +311,7 @@ def run_impl(case):
                     buf.close()
                 with open(os.path.join(d, "caller.dat"), "rb") as fh:
                     disk = fh.read()
-                out["output_is_prefix"] = disk == (expected_prefix if binary else expected_prefix.encode("utf-8"))
+                out["output_is_prefix"] = disk == (expected_prefix if isinstance(expected_prefix, bytes) else expected_prefix.encode("utf-8"))
             else:
                 out["buffer_closed"] = bool(buf.closed)
                 if not buf.closed:
@@ -282,13 +334,8 @@ def run_impl(case):
                     raised = e
         out["open_handles"] = sum(1 for h in rec.handles if not h.closed)
         out["handles_seen"] = len(rec.handles)
-        if raised is None:
-            out["raised_at"] = None
-        elif raised is exc_obj:
-            out["raised_at"] = k
-        else:
-            out["raised_at"] = 9999
-            out["other_exception"] = f"{type(raised).__name__}: {raised}"
+        if "raised_at" not in out:
+            _classify_and_release(raised, exc_obj, k, out)
         return out
     except Exception as e:
         return codec.enc_exc(e)
@@ -296,10 +343,15 @@ def run_impl(case):
         shutil.rmtree(d, ignore_errors=True)
 
 
+def _k_of(case, obs):
+    """the failing position: the injected one, or (caller buffer of the other kind) the one the elements recorded"""
+    return obs["element_raised_at"] if "element_raised_at" in obs else case["k"]
+
+
 def request(case, obs):
     if "harness_exc" in obs:
         obs = {"exc": "harness"}
-    return {"op": "c17", "k": case["k"], "obs": obs}
+    return {"op": "c17", "k": _k_of(case, obs), "obs": obs}
 
 
 def judge(case, obs, resp):
@@ -311,8 +363,9 @@ def judge(case, obs, resp):
         return {"status": "error", "why": f"harness raised {obs['exc']}: {obs.get('msg')}"}
     if not resp["holds"]:
         bad = []
-        if obs["raised_at"] != case["k"]:
-            bad.append(f"exception reaching the caller: {obs.get('other_exception', obs['raised_at'])} (injected at {case['k']})")
+        kk = _k_of(case, obs)
+        if obs["raised_at"] != kk:
+            bad.append(f"exception reaching the caller: {obs.get('other_exception', obs['raised_at'])} (injected at {case['k']}" + (f", first element to raise: {kk}" if kk != case["k"] else "") + ")")
         if obs["open_handles"]:
             bad.append(f"{obs['open_handles']} framework handle(s) left open")
         if obs["buffer_closed"]:
@@ -321,7 +374,7 @@ def judge(case, obs, resp):
             bad.append("caller buffer not positioned at the end of the written data")
         if not obs["output_is_prefix"]:
             bad.append("output is not exactly the elements before the failing one")
-        return {"status": "oracle", "why": f"{case['family']} {case['direction']} {'binary' if case['binary'] else 'text'} {case['where']} n={case['n']} k={case['k']}: " + "; ".join(bad)}
+        return {"status": "oracle", "why": f"{case['family']} {case['direction']} {'binary' if case['binary'] else 'text'} {case['where']}{' of the other kind than the storage (' + ('text' if case['binary'] else 'byte') + ' buffer)' if case.get('other_kind') else ''} n={case['n']} k={case['k']}: " + "; ".join(bad) + (" (looked at after the call returned, the exception was let go and a garbage collection ran)" if obs["buffer_closed"] else "")}
     if case["where"] in ("path", "existingpath") and obs.get("handles_seen", 0) == 0:
         return {"status": "error", "why": "no handle was recorded for a path source/destination (harness wrapper not effective)"}
     return {"status": "ok", "why": ""}
@@ -332,7 +385,7 @@ def nontrivial(case):
 
 
 def features(case, obs):
-    return [f"family={case['family']}", f"direction={case['direction']}", "binary" if case["binary"] else "text", f"where={case['where']}", f"exc={case['exc']}", "fault" if case["k"] is not None else "no_fault", f"n={case['n']}"]
+    return (["other_kind"] if case.get("other_kind") else []) + [f"family={case['family']}", f"direction={case['direction']}", "binary" if case["binary"] else "text", f"where={case['where']}", f"exc={case['exc']}", "fault" if case["k"] is not None else "no_fault", f"n={case['n']}"]
 
 
 def signature(rec):
@@ -373,6 +426,9 @@ def all_cases():
                                     yield {"family": fam, "binary": binary, "direction": direction, "where": where, "n": n, "k": k, "exc": "CustomValueError", "field_fault": True}
                                 if direction == "write" and where in ("path", "buffer") and exc in ("ValueError", "Custom") and (k is None or k % 2 == 0):
                                     yield {"family": fam, "binary": binary, "direction": direction, "where": where, "n": n, "k": k, "exc": exc, "own_slot": True}
+                                if direction == "write" and where in ("buffer", "callerfile") and exc in ("ValueError", "Custom"):
+                                    # a caller buffer of the other kind than the storage
+                                    yield {"family": fam, "binary": binary, "direction": direction, "where": where, "n": n, "k": k, "exc": exc, "other_kind": True}
                                 if direction == "read" and k is not None and exc in ("ValueError", "Custom"):
                                     yield {"family": fam, "binary": binary, "direction": direction, "where": where, "n": n, "k": k, "exc": exc, "iter_read": True}
                     for n, k in ((1, 0), (3, 0), (3, 1), (4, 3), (8, 5)):
